@@ -279,6 +279,18 @@ pub fn run(ctx: &Ctx) -> Report {
     }
     total.merge(st);
     total.exhaustive_parts.push("chains of 10..300 operands and 10..100 nested negations ending in each kind of action (mode choice must not depend on the size of the tree)".into());
+    // chains nested to the left and to the right, the only action at a chosen operand position
+    let spines = crate::combo::spine_trees(ctx.tier.pick(300, 1000));
+    let sp = run_shards(16, |shard| {
+        let mut st = Stats::new();
+        for (i, (t, what)) in spines.iter().enumerate().filter(|(i, _)| i % 16 == shard) {
+            let v = judge(t);
+            st.record(&v, stable_hash(t), true, || json!({"kind": "tree", "what": what, "tree": term::encode_expr(t)}));
+        }
+        st.samples.truncate(1);
+        st
+    });
+    total.merge(sp);
     // requests that a registry keyed by a concatenation of their parts would take for one
     let twins = crate::combo::concat_twin_trees();
     let tw = run_shards(16, |shard| {
